@@ -147,7 +147,7 @@ def main(chk):
     mir = mirsym.dump_mir()
     native.build(); native.build('release')
     q = chk.tier == 'quick'
-    to = 90 if q else 900
+    to = 90 if q else 300
     ns = (1, 2, 3, 4) if q else (1, 2, 3, 4, 5)
     jobs = []
     J = lambda *a: jobs.append((r_family, (mir,) + a + (chk.seed, to), {}))
